@@ -128,7 +128,7 @@ def init_qmf_from_vector(vector, mapping, up_then_down=False):
     # Get thetas from HF vec and arrange Bloch angles so all thetas are first then phis
     thetas = np.array(get_mapped_vector(vector, mapping, up_then_down))
     var_params = np.zeros(2*len(thetas))
-    var_params[:len(thetas)] = thetas
+    var_params[:len(thetas)] = np.pi * thetas
     return var_params
 
 
